@@ -81,6 +81,8 @@ def build_real(prog, log):
                 n = u[0].partition(2, key=0)
             elif k == "starmap":
                 n = u[0].starmap(FUNCS[spec[1]])
+            elif k == "remove":
+                n = u[0].remove(FUNCS[spec[1]])
             elif k == "filter":
                 n = u[0].filter(None if spec[1] == "none" else FUNCS[spec[1]])
             elif k == "acc":
